@@ -86,7 +86,7 @@ func c01Run(c c01Case) (viol, trivial bool, desc string, res eng.Result) {
 			for j, x := range muts {
 				wv.Set(rn.vals[j], x)
 			}
-			serr := sys.SolveCircuit(rn.asg)
+			serr := sys.SolveCircuit(rn.asg, cs.TolerantHints()...)
 			for j := range muts {
 				wv.Set(rn.vals[j], rn.orig[j])
 			}
